@@ -150,7 +150,7 @@ def _run(ctx, rng, big, events):
 
     for step in range(rng.randint(5, 45 if big else 30)):
         del events[:]
-        op = rng.choice(['ru', 'ru', 'ru', 'uu', 'ra', 'ra', 'ua', 'rs', 'rs', 'us', 'rh', 'uh', 'reinit', 'copy'])
+        op = rng.choice(['ru', 'ru', 'ru', 'uu', 'ra', 'ra', 'ua', 'rs', 'rs', 'us', 'rh', 'uh', 'reinit', 'copy', 'err'])
         c = newcomp()
         prov = rng.choice(P)
         name = rng.choice(['', 'a', 'b'])
@@ -160,7 +160,39 @@ def _run(ctx, rng, big, events):
         accept = None      # list of acceptable event-kind sequences
         noevent = False
         where = {'op': op, 'comp': repr(c), 'provided': nm(prov), 'name': name, 'required': nm(req), 'info': info}
-        if op == 'copy':
+        if op == 'err':
+            # calls that are refused (TypeError): nothing is registered, removed or announced
+            two = (P[0], P[1])
+            shapes = [
+                ('utility: factory and component', lambda: comps.registerUtility(c, prov, name, factory=UFactory(c.k, c.h))),
+                ('unregister utility: factory and component', lambda: comps.unregisterUtility(c, prov, name, factory=UFactory(c.k, c.h))),
+                ('unregister utility: nothing given', lambda: comps.unregisterUtility()),
+                ('unregister adapter: nothing given', lambda: comps.unregisterAdapter()),
+                ('unregister adapter: provided only', lambda: comps.unregisterAdapter(provided=prov)),
+                ('named subscription adapter', lambda: comps.registerSubscriptionAdapter(c, (R[0],), prov, name='n')),
+                ('named handler', lambda: comps.registerHandler(c, (R[0],), name='n')),
+                ('unregister named handler', lambda: comps.unregisterHandler(c, (R[0],), name='n')),
+                ('unregister handler: nothing given', lambda: comps.unregisterHandler()),
+                ('required given as a single interface', lambda: comps.registerAdapter(c, R[0], prov)),
+                ('required holds something that is no specification', lambda: comps.registerAdapter(c, (R[0], 42), prov)),
+                ('utility providing two interfaces, none named', lambda: (directlyProvides(c, *two), comps.registerUtility(c))[1]),
+                ('adapter factory implementing nothing, provided not given', lambda: comps.registerAdapter(Comp(9, -5, True), (R[0],))),
+            ]
+            if not c:
+                # (a component that is false in a boolean context next to a factory is taken for "no component given":
+                #  the library tests its truth value there; not a call this property says anything about)
+                shapes = shapes[2:]
+            label, call = rng.choice(shapes)
+            ctx.op('refused-call', label)
+            ctx.ev()
+            ctx.count('refused_calls')
+            try:
+                call()
+                ctx.violation('refused-call-accepted', dict(where, call=label))
+            except TypeError:
+                pass
+            accept = [[]]
+        elif op == 'copy':
             # the object goes through copy / the reduce protocol (what persistence does between transactions): the volatile
             # bookkeeping is not part of the state and is worked out again from the listings on first use
             import copy as _copy
